@@ -1,0 +1,93 @@
+// Verification hooks. Compiled only with `--cfg oxmpl_verif`; never part of a normal build.
+//
+// * a thread-local, totally ordered event log that the planners append to at their
+//   state-changing points (after the change) and that an external harness can also append
+//   its own observations to (`Event::Ext`), so that one run yields one ordered trace;
+// * a virtual clock: `verif::Instant` is the wall clock unless the harness switches the
+//   current thread to virtual time, in which case time only moves when the harness moves it.
+
+use std::cell::{Cell, RefCell};
+use std::time::Duration;
+
+#[derive(Clone, Debug, PartialEq)]
+pub enum Event {
+    /// A node was appended to search tree `tree` (0 = start tree / only tree, 1 = goal tree).
+    Push {
+        tree: u8,
+        idx: usize,
+        parent: Option<usize>,
+        cost: f64,
+    },
+    /// RRT*: node `idx` was re-parented to `parent` with recorded cost `cost`.
+    Rewire {
+        idx: usize,
+        parent: usize,
+        cost: f64,
+    },
+    /// Anything the harness wants to interleave with the planner's own events.
+    Ext(String),
+}
+
+thread_local! {
+    static LOG: RefCell<Vec<Event>> = const { RefCell::new(Vec::new()) };
+    static RECORDING: Cell<bool> = const { Cell::new(false) };
+    static VIRTUAL_NANOS: Cell<Option<u64>> = const { Cell::new(None) };
+}
+
+/// Start (or stop) recording events on this thread. Off by default.
+pub fn set_recording(on: bool) {
+    RECORDING.with(|r| r.set(on));
+}
+
+pub fn emit(ev: Event) {
+    if RECORDING.with(|r| r.get()) {
+        LOG.with(|l| l.borrow_mut().push(ev));
+    }
+}
+
+pub fn take_events() -> Vec<Event> {
+    LOG.with(|l| std::mem::take(&mut *l.borrow_mut()))
+}
+
+/// Switch this thread to virtual time (`Some(nanos)`) or back to the wall clock (`None`).
+pub fn set_virtual_time(nanos: Option<u64>) {
+    VIRTUAL_NANOS.with(|v| v.set(nanos));
+}
+
+pub fn virtual_time() -> Option<u64> {
+    VIRTUAL_NANOS.with(|v| v.get())
+}
+
+/// Advance virtual time (no effect on the wall clock).
+pub fn advance_virtual_time(nanos: u64) {
+    VIRTUAL_NANOS.with(|v| {
+        if let Some(t) = v.get() {
+            v.set(Some(t.saturating_add(nanos)));
+        }
+    });
+}
+
+/// Drop-in for `std::time::Instant` inside the planners' timed loops.
+#[derive(Clone, Copy, Debug)]
+pub enum Instant {
+    Real(std::time::Instant),
+    Virtual(u64),
+}
+
+impl Instant {
+    pub fn now() -> Self {
+        match virtual_time() {
+            Some(t) => Instant::Virtual(t),
+            None => Instant::Real(std::time::Instant::now()),
+        }
+    }
+
+    pub fn elapsed(&self) -> Duration {
+        match self {
+            Instant::Real(i) => i.elapsed(),
+            Instant::Virtual(t0) => {
+                Duration::from_nanos(virtual_time().unwrap_or(*t0).saturating_sub(*t0))
+            }
+        }
+    }
+}
